@@ -1,6 +1,6 @@
 (* Correspondence runner for C14.  Codes: 0 ok, 1 impl <> model, 2 spec violated. *)
 From Coq Require Import List NArith ZArith Bool String.
-From GQL Require Export Visitor.VisitorTree Visitor.VisitorLoop Visitor.TypeInfo.
+From GQL Require Export Visitor.VisitorTree Visitor.VisitorLoop Visitor.TypeInfo Visitor.TypeInfoPre.
 From GQL Require Import Visitor.VisitorWalk Visitor.VisitorKeysSpec Gen.VisitorKeys.
 Import ListNotations.
 Open Scope N_scope.
@@ -65,8 +65,6 @@ Definition obs_eqb (a b : phase * N * tenv) : bool :=
 
 Definition attr_of (attrs : list (N * nattr)) (id : N) : nattr :=
   match assoc id attrs with Some a => a | None => no_attr end.
-Definition kind_of_tree (t : gnode) : N -> N :=
-  let tbl := kinds_of t in fun id => match assoc id tbl with Some k => k | None => 9999 end.
 
 Definition events_eqb := list_eqb event_eqb.
 
@@ -106,17 +104,24 @@ Definition check (c : c14case) : N :=
                                    | Some _ => [(e_phase e, e_id e, types_at sch attr (chain_of kind_of e))]
                                    | None => [] end) outer in
     if negb (list_eqb obs_eqb obs spec) then 2
-    else if negb (ti_ok false false t && tree_ok t) then 1   (* hypotheses of C14_typeinfo *)
+    else if negb (ti_ok false false t && kinds_fun t) then 1   (* hypotheses of C14_typeinfo_checked *)
     else if list_eqb obs_eqb obs (ti_run sch attr sel p ti_init outer) then 0 else 1
   | StackCase t sch attrs subs obs =>
-    (* by C14_parallel_projection sub-visitor i is called exactly at the events of its own walk;
-       the TypeInfo has been told of every enclosing node (the parallel wrapper never skips), so
-       by C14_typeinfo it reports types_at of the chain there.  Judged against the spec only. *)
+    (* spec: sub-visitor i is called exactly at the events of its own walk and reads types_at
+       of the chain there (C14_stacked_typeinfo); model: stack_run over the loop's events *)
     let attr := attr_of attrs in
     let kind_of := kind_of_tree t in
     let spec := map (fun s => map (fun e => (e_phase e, e_id e, types_at sch attr (chain_of kind_of e)))
                                   (walk_events keys_of (get_visit_fn (fst s)) (pol_of (snd s)) t)) subs in
-    if list_eqb (list_eqb obs_eqb) obs spec then 0 else 2
+    if negb (list_eqb (list_eqb obs_eqb) obs spec) then 2
+    else if negb (tree_ok t && ti_ok false false t && kinds_fun t) then 1
+    else match visit_loop keys_of par_sel par_pol (fuel_for t) t with
+         | Done mevs _ _ =>
+           if list_eqb (list_eqb obs_eqb) obs
+                (map (fun s => stack_run sch attr (get_visit_fn (fst s)) (pol_of (snd s)) ti_init None mevs) subs)
+           then 0 else 1
+         | OutOfFuel => 1
+         end
   | KeysCase keys shape =>
     if negb (keys_complete String.eqb exempt_names keys shape) then 2
     else if list_eqb (fun a b => String.eqb (fst a) (fst b) && list_eqb String.eqb (snd a) (snd b)) keys gen_keys_named
